@@ -95,6 +95,11 @@ def run_stdio_script(steps: List[Any], *, chunks: Optional[List[Any]] = None,
                         await settle()
                     elif op == "eof":
                         proc.finish_stdout()
+                    elif op == "child_exits":
+                        # the child has exited (its status is known to the process object) while output it wrote before
+                        # exiting is still unread in the pipe; end of output follows the data
+                        proc.returncode = st[1] if len(st) > 1 else 0
+                        proc.finish_stdout()
                     elif op == "close_write":
                         await write.aclose()
                     elif op == "init":
